@@ -331,7 +331,8 @@ func observe(op opT) map[string]any {
 		w[id] = safe.all(id, typeOf[id])
 		opt, err := config.GetOption(keyOf[id])
 		if err != nil {
-			uv[id] = "?" + err.Error()
+			// keep the record shape; the trace specification rejects the "?" values
+			uv[id], set[id], act[id], p[id] = "?"+err.Error(), false, "?", "?"
 			continue
 		}
 		uv[id] = canon(opt.UserValue())
@@ -569,10 +570,16 @@ func startWorker(dir string) (*worker, error) {
 	}
 	if !strings.Contains(string(b), "\"ready\"") {
 		w.kill()
-		return nil, fmt.Errorf("worker failed: %s", strings.TrimSpace(string(b)))
+		return nil, &workerFailure{strings.TrimSpace(string(b))}
 	}
 	return w, nil
 }
+
+// workerFailure is a start failure that the worker reported itself (registration, data root or module
+// start failed), as opposed to a process that could not be run at all.
+type workerFailure struct{ msg string }
+
+func (f *workerFailure) Error() string { return "worker failed: " + f.msg }
 
 func (w *worker) read(d time.Duration) ([]byte, error) {
 	select {
@@ -659,13 +666,17 @@ func runScript(tr *vio.Trace, s script, n int, base string) error {
 				w.stop()
 				w = nil
 				w, err = startWorker(dir)
-				if err == nil {
+				var wf *workerFailure
+				switch {
+				case err == nil:
 					rep, err = w.call(cmdT{Cmd: "observe", Op: op})
-				} else {
-					// the new process could not start on the saved file: that is an observation, not an
-					// infrastructure failure
-					rep = replyT{Res: resT{Inv: []string{}, Panic: "start after save: " + err.Error()}}
+				case errors.As(err, &wf):
+					// the modules of the new process did not start on the saved file: that is an
+					// observation, not an infrastructure failure
+					rep = replyT{Res: resT{Inv: []string{}, Panic: "start after save: " + wf.msg}}
 					err = nil
+				default:
+					return err
 				}
 			}
 		} else {
